@@ -6,7 +6,7 @@ checks on scratch copies. A CAUGHT line here is a candidate FALSE ALARM (or a
 refactoring that is not as behaviour-preserving as intended) to be triaged."""
 import json, os, shutil, subprocess, sys
 ROOT = os.path.dirname(os.path.abspath(__file__))
-SRC = '/tmp/preserve_out'
+SRC = os.environ.get('PRESERVE_SRC', '/tmp/preserve_out')
 dst = os.path.join(ROOT, 'preserving')
 if os.path.isdir(SRC):
     for p in sorted(os.listdir(SRC)):
